@@ -41,6 +41,7 @@ type VdrSpec struct {
 	Adversarial   bool    `json:"adversarial"`
 	LateConsumers bool    `json:"late"` // consumers are finished as late as possible
 	TimeoutS      int     `json:"timeout_s"`
+	NoExtra       bool    `json:"no_extra"` // stages write nothing beyond what their outputs name (and tmp files)
 }
 
 type vdrEnt struct {
@@ -83,6 +84,7 @@ type VdrResult struct {
 	Sample     map[string]string `json:"sample,omitempty"`
 	Crashed    bool              `json:"crashed,omitempty"`
 	WallMs     int64             `json:"wall_ms"`
+	Debug      interface{}       `json:"debug,omitempty"`
 }
 
 type vdrRun struct {
@@ -401,7 +403,7 @@ func (v *vdrRun) outsHook(job *TAJob, outs map[string]interface{}) {
 	}
 	// unreferenced material: a directory tree under files/ and files in tmp/
 	rng := rand.New(rand.NewSource(int64(hash64("vdr-extra", job.Key))))
-	if rng.Intn(2) == 0 {
+	if rng.Intn(2) == 0 && !v.spec.NoExtra {
 		write(path.Join(job.FilesPath, "scratchdir", "a", "x.bin"), "x "+job.Key)
 		write(path.Join(job.FilesPath, "scratchdir", "y.bin"), "y "+job.Key)
 	}
@@ -464,7 +466,7 @@ func runVdrSpec(spec *VdrSpec, scratch string) *VdrResult {
 	v := &vdrRun{spec: spec, res: res, ever: map[string]vdrEnt{}, gone: map[string]int{}, resetGone: map[string]bool{},
 		writtenBy: map[string]string{}, tmpFiles: map[string]bool{}, launchArg: map[string][]string{}, outside: map[string]string{}}
 	opts := TAOpts{VdrMode: spec.VdrMode, CrashSurvive: spec.CrashSurvive, InlineFinish: spec.InlineFinish,
-		StartSeparate: spec.StartSeparate, StepBias: spec.StepBias, Adversarial: spec.Adversarial, ExtraFiles: true}
+		StartSeparate: spec.StartSeparate, StepBias: spec.StepBias, Adversarial: spec.Adversarial, ExtraFiles: !spec.NoExtra}
 	if len(spec.CrashAt) > 0 {
 		opts.CrashAt = map[int]bool{}
 		for _, c := range spec.CrashAt {
@@ -531,6 +533,16 @@ func runVdrSpec(spec *VdrSpec, scratch string) *VdrResult {
 		}
 		v.monitors()
 		v.modelChecks()
+		if os.Getenv("VDR_DEBUG") != "" {
+			var tree []string
+			for k, e := range v.postKill.Tree {
+				if !strings.Contains(k, "/_") && !strings.HasPrefix(k, "_") {
+					tree = append(tree, k+" "+e.Kind)
+				}
+			}
+			sort.Strings(tree)
+			res.Debug = map[string]interface{}{"forks": v.postKill.Forks, "tree": tree, "pre": v.preFinal.Forks, "events": run.Events, "reports": v.postKill.Reports, "prereports": v.preFinal.Reports}
+		}
 	}
 	res.WallMs = time.Since(start).Milliseconds()
 	return res
